@@ -69,6 +69,23 @@ CHECKS["C12"] = dict(
     design="DESIGN.md §3 C12",
 )
 
+CHECKS["C11"] = dict(
+    level="exploration",
+    engine="direct",
+    technique="property-based testing (Hypothesis) with boundary-aimed point generators against a long-double reference model of the documented plate-carree layouts (RefPlateCarree); metamorphic relation lon -> lon+2*pi*k; independent ICRS->Galactic rotation",
+    text="Six sampler variants x map shapes 1..64 (incl. 1-pixel axes, colour planes) x generated request arrays (any real longitude, exact cell boundaries, poles): every returned value is an admissible source pixel under the documented layout; shapes and index ranges are right. Held on everything explored after the Galactic sampler fix.",
+    note="Trusts the layout reading of the samplers' docstrings; boundary tolerance 1e-9 cells (1e-5 for Galactic); the ecliptic sampler is judged on layout-free clauses only.",
+    design="DESIGN.md §3 C11",
+)
+CHECKS["C16"] = dict(
+    level="exploration",
+    engine="direct",
+    technique="property-based testing (Hypothesis) over generated linear celestial WCS and object kinds; round-trip / metamorphic oracle: world(x,y) before = world(x,h-1-y) after the flip (unit vectors), rows reversed, idempotence of ensure_negative_parity",
+    text="Generated WCS (5 projections, any rotation incl. exact right angles, skew, both parities, CRPIX inside/outside, CD or PC+CDELT) x sizes 1..200 x Image (array / PIL-backed, cached or not) and ImageDescription (2-D and colour shapes) x operation sequences.",
+    note="Trusts astropy's wcs_pix2world as the definition of a pixel's sky position; tolerance 1e-10 rad.",
+    design="DESIGN.md §3 C16",
+)
+
 NOT_APPLICABLE = {}
 
 
